@@ -208,7 +208,7 @@ func encLeaves(e *hcq.Enc, ls []leaf) {
 			e.Int(x)
 		}
 		v, _ := hex.DecodeString(l.Val)
-		e.Str(string(v))
+		e.Ref(string(v))
 	}
 }
 
@@ -282,7 +282,7 @@ func main() {
 
 	body := &hcq.Enc{}
 	nCases := 0
-	maxModelCases := c.N(35, 300) // every case is monitored; the first ones are also compared with the model
+	maxModelCases := c.N(60, 400) // every case is monitored; the first ones are also compared with the model
 	nLeaves := 0
 	walk(reflect.ValueOf(func() *config.Config { c, _ := build(shape{Seed: 1, Fill: 4, MaxList: 2}); return c }()).Elem(), nil, nil,
 		func(p string, idx []int, s reflect.Value) { nLeaves++ })
@@ -448,6 +448,7 @@ func main() {
 	for _, p := range pathTable {
 		table.Strs(strings.Split(p, "."))
 	}
+	table.Strs(body.Table())
 	table.Int(nCases)
 	table.Raw(body)
 	sb.WriteString(table.Defs("data"))
